@@ -243,6 +243,8 @@ def parent_setter_call(eng, st, task, newparent, line, X=None):
     if only is None: post.pop(U1)
     else: post = {k: v for k, v in post.items() if k in only}
     for g in list(post.values()) + list(effect(h0, h1, task, newparent).values()): ok.assume(g)
+    newp = If(newparent != null, newparent, If(h0.own[task] != W.null, h0.root[h0.own[task]], null))
+    ok.assume(h1.par == Store(h0.par, task, newp))          # the two parent clauses of the effect, as one array equation (extensionality)
     return [(ok, V(None, NONE)), (exc, Raise('RuntimeError'))]
 
 
